@@ -429,6 +429,10 @@ EXTRA = {
            "Apalache (spec/PcapFileInd.tla, the typed form of the machine): base case and inductive step for every file of up "
            "to 5 records of arbitrary content, i.e. for call histories of every length.",
     "C20": " A third of the streams have a snaplen equal to the longest captured length.",
+    "C21": " Writes are texts, single bytes (every value) and byte arrays; after flush(f) a second handle must see everything "
+           "written so far. The machine's invariant (results are a prefix of the content, each byte once; short only at the end; "
+           "a call is answered only from bytes that have arrived) is also discharged as an inductive invariant by Apalache "
+           "(spec/FileIOInd.tla): contents of up to 8 arbitrary bytes, every delivery schedule, call histories of every length.",
     "C23": " Rejected lines include ones the compiler rejects after entering nested scopes and making definitions there (block, "
            "if, loop, named function body, anonymous function); later lines read names from nested scopes.",
     "C24": " Programs start with 0-4 comment / blank lines (under the shebang line in shebang mode).",
